@@ -171,6 +171,9 @@ class ScheduledTraceEvent(AppTraceEvent):
 
     @property
     def event_data(self):
+        if self.why is None:
+            # from_data reads data without a separator as "no reason".
+            return '%s' % self.where
         return '%s:%s' % (self.where, self.why)
 
 
